@@ -926,7 +926,19 @@ func (pc *pCtx) p1Context(s *pSite) {
 				}
 				os := oc.of(ctxArg)
 				var bad []string
+				hasCbCtx := false
+				for _, prm := range fn.Params {
+					if isContextType(prm.Type()) && fn != s.Subscribe {
+						hasCbCtx = true
+					}
+				}
 				for _, o := range os.list() {
+					if o == "sub" && hasCbCtx && kind == "emit" && !os["cb"] {
+						// inside a callback that received the notification's own context, forwarding the subscription
+						// context instead drops what was attached to the notification upstream
+						bad = append(bad, "sub-instead-of-notification-context")
+						continue
+					}
 					if ctxAllowed[o] {
 						continue
 					}
@@ -976,10 +988,10 @@ func (pc *pCtx) machineCovers(s *pSite, role string) bool {
 		if !tagged {
 			continue
 		}
-		for _, c := range b.all("on") {
-			if strings.HasPrefix(strings.TrimSpace(c.Text), role+"(") || strings.HasPrefix(strings.TrimSpace(c.Text), role+" (") {
-				return true
-			}
+		// helper closures (onDone, flush...) are executed in place by the machine layer, so any contract tagged C09
+		// carries the ctx-nonnil obligations of every emission of the site
+		if len(b.all("on")) > 0 {
+			return true
 		}
 	}
 	return false
